@@ -74,6 +74,10 @@ def Hit.ofSpan (rtl : Bool) (m : Nat × Nat) : Hit := ⟨m.1, m.2, scanEnd rtl m
 
 def Hit.span (h : Hit) : Nat × Nat := (h.index, h.len)
 
+/-- a returned match lies inside the input and resumes at its end in scan direction -/
+def Hit.Valid (rtl : Bool) (n : Nat) (h : Hit) : Prop :=
+  h.index + h.len ≤ n ∧ h.textpos = scanEnd rtl (h.index, h.len)
+
 /-- `Runner.scan(rt, _, textstart = start, previousMatchLength = prevLen, …)` for the matcher bound to
     that `textstart`. -/
 def scan (finder : Nat → Bool × Nat) (after : Nat → Nat) (attempt : Nat → Option (Nat × Nat))
@@ -101,6 +105,38 @@ def naive (attempt : Nat → Option (Nat × Nat)) (start : Nat) (prevLen : Int) 
     if start = stopPos rtl n then none else naiveFrom attempt rtl n (bump rtl start)
   else naiveFrom attempt rtl n start
 
+/-! ### what is assumed of the abstract matcher -/
+
+/-- Shape of a single execution's result. Left-to-right the overall match begins at the attempt
+    position and ends inside the input; right-to-left it ends at the attempt position. -/
+def AttemptShape (rtl : Bool) (n : Nat) (attempt : Nat → Option (Nat × Nat)) : Prop :=
+  ∀ p i l, p ≤ n → attempt p = some (i, l) → if rtl then i + l = p else i = p ∧ i + l ≤ n
+
+/-- The candidate finder is only an accelerator: from `pos` it moves ahead in scan direction, stays
+    inside the input, a reported candidate `q` skips only positions at which the program fails, and
+    "no candidate" means the program fails at every remaining position. -/
+def FinderSound (rtl : Bool) (n : Nat) (finder : Nat → Bool × Nat) (attempt : Nat → Option (Nat × Nat)) : Prop :=
+  ∀ pos, pos ≤ n →
+    if rtl then
+      (finder pos).2 ≤ pos ∧
+      ((finder pos).1 = true → ∀ p, (finder pos).2 < p → p ≤ pos → attempt p = none) ∧
+      ((finder pos).1 = false → ∀ p, p ≤ pos → attempt p = none)
+    else
+      pos ≤ (finder pos).2 ∧ (finder pos).2 ≤ n ∧
+      ((finder pos).1 = true → ∀ p, pos ≤ p → p < (finder pos).2 → attempt p = none) ∧
+      ((finder pos).1 = false → ∀ p, pos ≤ p → p ≤ n → attempt p = none)
+
+/-- Where a failed execution leaves the scan position (bump-along update): ahead of its start,
+    inside the input, having skipped only positions at which the program fails. -/
+def AfterSound (rtl : Bool) (n : Nat) (after : Nat → Nat) (attempt : Nat → Option (Nat × Nat)) : Prop :=
+  ∀ q, q ≤ n → attempt q = none →
+    if rtl then after q ≤ q ∧ ∀ p, after q ≤ p → p < q → attempt p = none
+    else q ≤ after q ∧ after q ≤ n ∧ ∀ p, q < p → p ≤ after q → attempt p = none
+
+/-- `MinRequiredLength` is a lower bound of the length of every overall match. -/
+def MinLenSound (n L : Nat) (attempt : Nat → Option (Nat × Nat)) : Prop :=
+  ∀ p i l, p ≤ n → attempt p = some (i, l) → L ≤ l
+
 /-! ### iteration: first match, FindNextMatch, find-all -/
 
 /-- the matcher as a family over the `\G` origin, plus `FindOptimizations.MinRequiredLength` -/
@@ -109,6 +145,13 @@ structure Engine where
   after : Nat → Nat → Nat
   attempt : Nat → Nat → Option (Nat × Nat)
   minLen : Nat
+
+/-- every member of the family is well-shaped and its accelerators are sound -/
+structure Engine.Sound (E : Engine) (rtl : Bool) (n : Nat) : Prop where
+  shape : ∀ ts, ts ≤ n → AttemptShape rtl n (E.attempt ts)
+  finder : ∀ ts, ts ≤ n → FinderSound rtl n (E.finder ts) (E.attempt ts)
+  after : ∀ ts, ts ≤ n → AfterSound rtl n (E.after ts) (E.attempt ts)
+  minLen : ∀ ts, ts ≤ n → MinLenSound n E.minLen (E.attempt ts)
 
 /-- `runner.scan(input, _, start, prevLen, …)`: `\G` is bound to `start` -/
 def scanAt (E : Engine) (rtl : Bool) (n : Nat) (start : Nat) (prevLen : Int) : Option Hit :=
@@ -186,6 +229,35 @@ def compatAll (E : Engine) (rtl : Bool) (n : Nat) (k : Int) : Option (List (Nat 
   else
     let out := (compatForEach E rtl n k).map fun m => (m.index, m.index + m.len)
     if out.isEmpty then none else some out
+
+/-! ### specification of the find-all results in terms of the FindNextMatch sequence -/
+
+/-- `b` starts strictly after `a` in scan order and does not overlap it -/
+def Hit.Before (rtl : Bool) (a b : Hit) : Prop :=
+  if rtl then b.index + b.len ≤ a.index ∧ b.index + b.len < a.index + a.len
+  else a.index + a.len ≤ b.index ∧ a.index < b.index
+
+/-- where the match before ended in scan direction; `-1` when there is none -/
+def prevEndOf (rtl : Bool) : Option Hit → Int
+  | none => -1
+  | some p => keptEnd rtl p
+
+/-- the sequence minus every empty match that lies exactly where the match before it (in the
+    sequence) ended in scan direction -/
+def keepNonAdjacent (rtl : Bool) : Option Hit → List Hit → List Hit
+  | _, [] => []
+  | prev, m :: rest =>
+    if m.len = 0 ∧ (m.index : Int) = prevEndOf rtl prev then keepNonAdjacent rtl (some m) rest
+    else m :: keepNonAdjacent rtl (some m) rest
+
+/-- truncation to `k` results; a negative `k` means all -/
+def takeK {α : Type} (k : Int) (l : List α) : List α := if k < 0 then l else l.take k.toNat
+
+/-- what the find-all calls must return for the FindNextMatch sequence `ms`: the non-adjacent
+    matches, truncated to `k`, as `(start, end)` pairs; `none` (nil) when nothing is left -/
+def findAllSpec (rtl : Bool) (k : Int) (ms : List Hit) : Option (List (Nat × Nat)) :=
+  let kept := takeK k (keepNonAdjacent rtl none ms)
+  if kept.isEmpty then none else some (kept.map fun m => (m.index, m.index + m.len))
 
 /-! ### Go's regexp package: `allMatches` -/
 
